@@ -506,8 +506,15 @@ def check_C05(tier_, sd, consts_ok, consts_detail):
     return {"coverage": cov, "violations": violations}
 
 # ------------------------------------------------------------------ generated projects: C01, C12, C13, C16
-def gen_batch(rng, n, **kw):
-    return [gen.gen_project(rng.fork("p%d" % i), "p%d" % i, **kw) for i in range(n)]
+def gen_batch(rng, n, large=True, **kw):
+    """generated projects; one in twenty-five is a LARGE project (outputs of 9-30 KiB: the 8 KiB buffers of BufReader / BufWriter matter)"""
+    out = []
+    for i in range(n):
+        if large and i % 25 == 5:
+            out.append(gen.gen_large_project(rng.fork("L%d" % i), "p%d" % i, modes=kw.get("modes", (0,))))
+        else:
+            out.append(gen.gen_project(rng.fork("p%d" % i), "p%d" % i, **kw))
+    return out
 
 def generated_paths(p, o):
     """paths of the final tree that are not part of the initial tree (outputs and temp files)"""
